@@ -99,6 +99,9 @@ SYNTH = [
     ('syn_201_202', [201130, 12101, 201000, 202129, 12101, 202000, 1001], [[273.15, 20.5, 5]], False),
     ('syn_201_rep', [201129, 103002, 12101, 10004, 1001, 201000, 12101], [[273.15, 100000.0, 5, 280.0, 90000.0, 6, 250.0]], False),
     ('syn_203', [203010, 1001, 203255, 1001], [[5, 7]], False),
+    ('syn_203c', [203010, 1001, 203255, 1001, 1002], [[5, 7, 1], [5, 9, 2]], True),
+    ('syn_plain_c', [1001, 1002, 12101], [[7, 1, 273.15], [9, 2, 280.0]], True),
+    ('syn_plain', [1001, 1002, 12101], [[7, 1, 273.15], [9, 2, 280.0]], False),
     ('syn_rep', [101000, 31001, 1001, 103002, 1001, 1002, 12101], [[2, 4, 5, 1, 2, 273.15, 3, 4, 280.0]], False),
     ('syn_208', [208002, 1015, 208000, 1015], [['ab', 'abcdefghijklmnopqrst']], False),
 ]
@@ -389,7 +392,10 @@ class Runner(object):
         for k, g in list(cache._groups.items()):
             ks = key_str(k)
             if ks not in self.fresh_fp:
-                self.fresh_fp[ks] = fresh_group_state(k)
+                try:
+                    self.fresh_fp[ks] = fresh_group_state(k)
+                except Exception as e:
+                    return 'cached table group %s: its key cannot be loaded (%s)' % (ks, type(e).__name__)
             st = group_state(g)
             ref = self.fresh_fp[ks]
             if st != ref:
@@ -671,6 +677,8 @@ def gen_history(rng, pool, n, versions, heavy):
     light = [x for x in names if x not in heavy]
     k = rng.randint(4, 14)
     mine = rng.sample(light, min(k, len(light)))
+    syn = [m['name'] for m in pool['msgs'] if m['cls'] == 'synthetic']
+    mine += [x for x in rng.sample(syn, min(len(syn), rng.randint(1, 4))) if x not in mine]
     if rng.random() < 0.3:
         mine.append(rng.choice(sorted(heavy)))
     jn = [j['name'] for j in pool['jsons']]
@@ -929,7 +937,8 @@ def run(ctx):
         npaths = 4 if ctx.tier == 'quick' else 8
         ncfg = 2 if ctx.tier == 'quick' else 3
         gpool = dict(pool, paths={m: prng.sample(ps, min(npaths, len(ps))) for m, ps in sorted(pool['paths'].items())},
-                     cfgs={x['name']: prng.sample(CFGS, ncfg) for x in pool['msgs'] + pool['jsons']})
+                     cfgs={x['name']: (list(CFGS) if x['cls'] == 'synthetic' and 'hex' in x else prng.sample(CFGS, ncfg))
+                           for x in pool['msgs'] + pool['jsons']})
         nh = 60 if ctx.tier == 'quick' else 600
         for i in range(nh):
             limit = rng.choice([1, 2, 3]) if (ctx.tier == 'quick' or i % 10) else 50
